@@ -9,6 +9,7 @@
   evaluated on scipy's answer on every case of the check.
 -/
 import Proofs.Lemmas.Matching
+import Proofs.Lemmas.MatchCall
 namespace SE.Proofs.C07
 open SE SE.Matching
 
@@ -474,5 +475,217 @@ example : optimalByCert 0 2 2 (matOfRows [[1, 3/4], [3/4, 0]]) (vecOf [3/4, 1/2]
     [(0, 1), (1, 0)] [⟨some 0, some 0, 1⟩, srcOnly 1, tgtOnly 1] = false := by decide +kernel
 example : sortEntries [tgtOnly 1, srcOnly 0, ⟨some 1, some 0, 1/2⟩] =
     [tgtOnly 1, srcOnly 0, ⟨some 1, some 0, 1/2⟩] := by decide +kernel
+
+/-! ## follow-up: histories and construction paths (`SoundeventModel/MatchCall.lean`) -/
+
+open SE.MatchCall in
+/-- Positional and keyword passing are the same call: positional arguments bind to the positional parameters
+    in signature order, so a call `f(*pos, **kw)` binds exactly like the all-keyword call that names them
+    (for every signature; `pos` not longer than the positional parameters, no name given twice). -/
+theorem C07_bind_positional_eq_keyword {V : Type} (sig : List (Param V)) (pos : List V) (kw : List (String × V))
+    (hlen : pos.length ≤ (positionalNames sig).length)
+    (hfresh : ∀ e ∈ kw, ((positionalNames sig).zip pos).lookup e.1 = none) :
+    bindArgs sig pos kw = bindArgs sig [] ((positionalNames sig).zip pos ++ kw) := by
+  unfold bindArgs
+  simp only
+  have h1 : ¬ (positionalNames sig).length < pos.length := Nat.not_lt.2 hlen
+  have h2 : ¬ (positionalNames sig).length < ([] : List V).length := by simp
+  rw [if_neg h1, if_neg h2]
+  have hA : kw.find? (fun e => (((positionalNames sig).zip pos).lookup e.1).isSome) = none := by
+    rw [List.find?_eq_none]
+    intro e he
+    simp [hfresh e he]
+  have hB : ((positionalNames sig).zip pos ++ kw).find?
+      (fun e => ((((positionalNames sig).zip ([] : List V))).lookup e.1).isSome) = none := by
+    rw [List.find?_eq_none]
+    intro e _
+    simp
+  rw [hA, hB]
+  have hC : ((positionalNames sig).zip pos ++ kw).find? (fun e => !(sig.map (·.name)).contains e.1)
+      = kw.find? (fun e => !(sig.map (·.name)).contains e.1) := by
+    rw [List.find?_append]
+    have : ((positionalNames sig).zip pos).find? (fun e => !(sig.map (·.name)).contains e.1) = none := by
+      rw [List.find?_eq_none]
+      intro e he
+      have hmem : e.1 ∈ positionalNames sig := by
+        have := List.of_mem_zip (a := e.1) (b := e.2) (by simpa using he)
+        exact this.1
+      have := positionalNames_sub sig e.1 hmem
+      simpa using this
+    rw [this]; simp
+  rw [hC]
+  cases kw.find? (fun e => !(sig.map (·.name)).contains e.1) with
+  | some e => rfl
+  | none =>
+    simp only
+    congr 1
+    funext p
+    have : (positionalNames sig).zip ([] : List V) = [] := by simp
+    rw [this, resolve_append]
+
+open SE.MatchCall in
+/-- `match_geometries` called positionally in the documented order `(source, target, time_buffer, freq_buffer)`,
+    by keywords in any other order, half positionally, or with the buffers omitted (defaults 0.01 s, 100 Hz) is
+    the same call -/
+theorem C07_match_call_styles (s t : List Geom) (tb fb : Rat) :
+    callOf [.geoms s, .geoms t, .num tb, .num fb] [] = .ok (some ⟨s, t, tb, fb⟩) ∧
+    callOf [] [("freq_buffer", .num fb), ("target", .geoms t), ("time_buffer", .num tb), ("source", .geoms s)]
+      = .ok (some ⟨s, t, tb, fb⟩) ∧
+    callOf [.geoms s, .geoms t, .num tb] [("freq_buffer", .num fb)] = .ok (some ⟨s, t, tb, fb⟩) ∧
+    callOf [.geoms s, .geoms t] [("freq_buffer", .num fb), ("time_buffer", .num tb)] = .ok (some ⟨s, t, tb, fb⟩) ∧
+    callOf [.geoms s, .geoms t] [] = .ok (some ⟨s, t, 1 / 100, 100⟩) ∧
+    callOf [.geoms s, .geoms t] [("time_buffer", .num tb)] = .ok (some ⟨s, t, tb, 100⟩) ∧
+    callOf [.geoms s, .geoms t] [("freq_buffer", .num fb)] = .ok (some ⟨s, t, 1 / 100, fb⟩) ∧
+    callOf [.geoms s, .geoms t, .num tb, .num fb] [("time_buffer", .num tb)] = .error (.multipleValues "time_buffer") ∧
+    callOf [.geoms s, .geoms t, .num tb, .num fb, .num fb] [] = .error .tooManyPositional ∧
+    callOf [.geoms s] [] = .error (.missing "target") := by
+  refine ⟨?_, ?_, ?_, ?_, ?_, ?_, ?_, ?_, ?_, ?_⟩ <;>
+    simp [callOf, bindArgs, matchSig, positionalNames, resolve, callOfBound, List.lookup, List.find?, List.mapM_cons,
+      List.mapM_nil, pure, Except.pure, Except.bind, Bind.bind]
+
+open SE.MatchCall in
+/-- The property for a whole call, stated on the coordinates: for non-negative buffers and a solver that honours
+    its contract, `match_geometries` on geometries with a closed-form affinity never raises, covers every source
+    and target index once, pairs `i` with `j` only if the closed-form affinity of `source[i]`, `target[j]` *for the
+    buffers of this call* is positive, reports exactly that number, reports 0 for one-sided matches, and is optimal
+    within `tol`. -/
+theorem C07_call_spec (solver : Nat → Nat → Mat → List (Nat × Nat)) (c : Call) (tol : Rat)
+    (htb : 0 ≤ c.tb) (hfb : 0 ≤ c.fb)
+    (hvalid : ValidAssignment c.src.length c.tgt.length
+      (solver c.src.length c.tgt.length (matOfRows (fillMatrix (affinityOf c.tb c.fb) c.src c.tgt))))
+    (hopt : ∀ M, PartialInjection c.src.length c.tgt.length M →
+      value (matOfRows (fillMatrix (affinityOf c.tb c.fb) c.src c.tgt)) M ≤
+        value (matOfRows (fillMatrix (affinityOf c.tb c.fb) c.src c.tgt))
+          (solver c.src.length c.tgt.length (matOfRows (fillMatrix (affinityOf c.tb c.fb) c.src c.tgt))) + tol) :
+    ∃ out, matchCall solver c = .ok out ∧
+      (srcs out).Perm (List.range c.src.length) ∧ (tgts out).Perm (List.range c.tgt.length) ∧
+      (∀ e ∈ out, ∀ i j, e.src = some i → e.tgt = some j →
+        ∃ (hi : i < c.src.length) (hj : j < c.tgt.length) (a : Rat),
+          closedAffinity c.tb c.fb c.src[i] c.tgt[j] = .ok a ∧ 0 < a ∧ e.aff = a) ∧
+      (∀ e ∈ out, (e.src = none ∨ e.tgt = none) → e.aff = 0) ∧
+      (∀ M, PartialInjection c.src.length c.tgt.length M →
+        geomValue (affinityOf c.tb c.fb) c.src c.tgt M ≤ total out + tol) := by
+  have hne := callError_none c htb hfb
+  have hsel := C07_total _ _ (matOfRows (fillMatrix (affinityOf c.tb c.fb) c.src c.tgt)) _ hvalid
+  have hmg : matchGeometries (affinityOf c.tb c.fb) solver c.src c.tgt =
+      .ok (closedForm c.src.length c.tgt.length (matOfRows (fillMatrix (affinityOf c.tb c.fb) c.src c.tgt))
+        (solver c.src.length c.tgt.length (matOfRows (fillMatrix (affinityOf c.tb c.fb) c.src c.tgt)))) := by
+    unfold matchGeometries; exact hsel
+  refine ⟨_, by unfold matchCall; rw [hne, hmg], ?_⟩
+  obtain ⟨h1, h2, h3, h4, h5⟩ := C07_geometries (affinityOf c.tb c.fb) solver c.src c.tgt _ tol hvalid hopt hmg
+  refine ⟨h1, h2, ?_, h4, h5⟩
+  intro e he i j hi hj
+  obtain ⟨hi', hj', hpos, hrep⟩ := h3 e he i j hi hj
+  obtain ⟨a, ha⟩ := closedAffinity_ok c.tb c.fb c.src[i] c.tgt[j] htb hfb
+  have : affinityOf c.tb c.fb c.src[i] c.tgt[j] = a := by unfold affinityOf; rw [ha]
+  exact ⟨hi', hj', a, ha, this ▸ hpos, this ▸ hrep⟩
+
+open SE.MatchCall in
+/-- history semantics: whatever was called before and whatever is called afterwards, the answer to a call is the
+    answer to that call alone -/
+theorem C07_history_step (solver : Nat → Nat → Mat → List (Nat × Nat)) (pre post : List Call) (c : Call) :
+    (runHistory solver (pre ++ c :: post))[pre.length]? = some (matchCall solver c) := by
+  simp [runHistory]
+
+open SE.MatchCall in
+/-- an implementation that memoises an intermediate result agrees with the pure function on every history, from
+    an empty table, if the key determines the result (a cache keyed by the full input) -/
+theorem C07_memo_full_key_sound {X K Y : Type} [DecidableEq K] (key : X → K) (f : X → Y)
+    (hkey : ∀ x x', key x = key x' → f x = f x') (xs : List X) :
+    memoRun key f [] xs = xs.map f :=
+  memoRun_sound key f hkey xs [] (by simp)
+
+open SE.MatchCall in
+/-- … and only then: if two inputs share a key but not the result, the history "first one, then the other"
+    is answered wrongly (a cache keyed by part of the input) -/
+theorem C07_memo_partial_key_unsound {X K Y : Type} [DecidableEq K] (key : X → K) (f : X → Y)
+    (x x' : X) (hk : key x = key x') (hf : f x ≠ f x') :
+    memoRun key f [] [x, x'] ≠ [x, x'].map f := by
+  simp [memoRun, hk]
+  exact hf
+
+open SE.MatchCall in
+/-- the instance seeded change C07-7 builds: the buffered extent of a time stamp memoised under the time stamp
+    alone answers `(1 s, buffer 1/2 s)` after `(1 s, buffer 1/100 s)` with the stale 10 ms extent -/
+theorem C07_stale_buffer_history :
+    memoRun (fun x : Rat × Rat => x.1) stampExtent [] [(1, 1 / 100), (1, 1 / 2)]
+      ≠ [(1, 1 / 100), (1, 1 / 2)].map stampExtent :=
+  C07_memo_partial_key_unsound _ _ _ _ rfl (by decide +kernel)
+
+open SE.MatchCall in
+/-- Judging against an independent matrix with a tolerance: if the output satisfies `holds` for a matrix `b`
+    that agrees with `a` within `τ` on the `n × m` block, every one-to-one pairing `M` is worth at most
+    `total out + tol + |M| τ` under `a`. -/
+theorem C07_optimal_perturb (τ tol : Rat) (n m : Nat) (a b : Mat) (out : List Entry)
+    (hclose : closeWithin τ n m a b = true) (hholds : holds tol n m b out = true) :
+    ∀ M, PartialInjection n m M → value a M ≤ total out + tol + (M.length : Rat) * τ := by
+  intro M hM
+  have hspec := (C07_holds_iff tol n m b out).1 hholds
+  have h1 := hspec.optimal M hM
+  have hc : ∀ i j, i < n → j < m → a i j - b i j ≤ τ := by
+    intro i j hi hj
+    simp only [closeWithin, List.all_eq_true, List.mem_range, Bool.and_eq_true, decide_eq_true_eq] at hclose
+    exact (hclose i hi j hj).1
+  have h2 := value_perturb τ n m a b hc M (fun p hp => ⟨hM.rows_lt p hp, hM.cols_lt p hp⟩)
+  grind
+
+open SE.MatchCall in
+/-- What the check's judgement against the *independent* affinity matrix `a` means (`holdsInd`, tolerance `τ` per
+    entry because the code computes in binary64): cover, every reported pair has a positive reported affinity
+    within `τ` of the independent affinity of that pair, one-sided matches report 0, and every one-to-one pairing
+    is worth at most `total out + tol + |M| τ` under `a`. -/
+theorem C07_holds_ind (τ tol : Rat) (hτ : 0 ≤ τ) (n m : Nat) (a : Mat) (out : List Entry)
+    (h : holdsInd τ tol n m a out = true) :
+    (srcs out).Perm (List.range n) ∧ (tgts out).Perm (List.range m) ∧
+    (∀ e ∈ out, ∀ i j, e.src = some i → e.tgt = some j →
+      0 < e.aff ∧ a i j - e.aff ≤ τ ∧ e.aff - a i j ≤ τ) ∧
+    (∀ e ∈ out, (e.src = none ∨ e.tgt = none) → e.aff = 0) ∧
+    (∀ M, PartialInjection n m M → value a M ≤ total out + tol + (M.length : Rat) * τ) := by
+  have hspec := (C07_holds_iff tol n m (snap τ a out) out).1 h
+  refine ⟨hspec.cover_src, hspec.cover_tgt, ?_, hspec.unpaired, ?_⟩
+  · intro e he i j hi hj
+    have hp := hspec.positive e he i j hi hj
+    have hr := hspec.reported e he i j hi hj
+    have hw := snap_within τ hτ a out i j
+    rw [hr]
+    exact ⟨hp, hw.1, hw.2⟩
+  · exact C07_optimal_perturb τ tol n m a (snap τ a out) out (snap_close τ hτ n m a out) h
+
+open SE.MatchCall in
+/-- for matrices beyond the brute force the optimum of the snapped matrix is certified: same verdict -/
+theorem C07_holds_ind_cert (τ tol : Rat) (n m : Nat) (a : Mat) (u v : Nat → Rat) (w : List (Nat × Nat))
+    (out : List Entry) (hc : certOk n m (snap τ a out) u v w = true) :
+    holdsIndCert τ tol n m a u v w out = holdsInd τ tol n m a out :=
+  C07_holds_by_cert tol n m (snap τ a out) u v w out hc
+
+/-- non-vacuity, and the scenario of seeded change C07-7 in the pure model: time stamps 1 s, 4 s against
+    1.3 s, 4.2 s are all unmatched with the 10 ms default buffer and matched with affinities 7/13 and 2/3 with a
+    buffer of 1/2 s -/
+example : (SE.MatchCall.matchCall (fun _ _ _ => [(0, 0), (1, 1)])
+    ⟨[.timeStamp 1, .timeStamp 4], [.timeStamp (13 / 10), .timeStamp (21 / 5)], 1 / 100, 100⟩).toOption
+    = some [srcOnly 0, srcOnly 1, tgtOnly 0, tgtOnly 1] := by decide +kernel
+example : (SE.MatchCall.matchCall (fun _ _ _ => [(0, 0), (1, 1)])
+    ⟨[.timeStamp 1, .timeStamp 4], [.timeStamp (13 / 10), .timeStamp (21 / 5)], 1 / 2, 100⟩).toOption
+    = some [⟨some 0, some 0, 7 / 13⟩, ⟨some 1, some 1, 2 / 3⟩] := by decide +kernel
+/-- a negative buffer reaching a time stamp raises; boxes alone never consult the buffers -/
+example : (match SE.MatchCall.matchCall (fun _ _ _ => [(0, 0)]) ⟨[.timeStamp 1], [.timeStamp 1], -1, 100⟩ with
+    | .error (.affinity .invalid) => true | _ => false) = true := by decide +kernel
+example : (SE.MatchCall.matchCall (fun _ _ _ => [(0, 0)])
+    ⟨[.boundingBox 0 0 1 1], [.boundingBox 0 0 1 2], -1, 100⟩).toOption
+    = some [⟨some 0, some 0, 1 / 2⟩] := by decide +kernel
+/-- a reported 0.6000000001 against the independent 3/5 passes with `τ = 2^-20`, fails with `τ = 0`; a stale
+    affinity (0 reported pairs where 3/5 was available) fails either way -/
+example : SE.MatchCall.holdsInd (1 / 1048576) (1 / 1048576) 1 1 (matOfRows [[3 / 5]])
+    [⟨some 0, some 0, 6000000001 / 10000000000⟩] = true := by decide +kernel
+example : SE.MatchCall.holdsInd 0 0 1 1 (matOfRows [[3 / 5]])
+    [⟨some 0, some 0, 6000000001 / 10000000000⟩] = false := by decide +kernel
+example : SE.MatchCall.holdsInd (1 / 1048576) (1 / 1048576) 1 1 (matOfRows [[3 / 5]])
+    [srcOnly 0, tgtOnly 0] = false := by decide +kernel
+example : SE.MatchCall.compatible (SE.MatchCall.matchSig ++ [⟨"solver", .keywordOnly, some (.num 0)⟩])
+    SE.MatchCall.matchSig = true := by decide +kernel
+example : SE.MatchCall.compatible
+    [⟨"source", .positional, none⟩, ⟨"target", .positional, none⟩,
+     ⟨"freq_buffer", .positional, some (.num 100)⟩, ⟨"time_buffer", .positional, some (.num (1 / 100))⟩]
+    SE.MatchCall.matchSig = false := by decide +kernel
 
 end SE.Proofs.C07
